@@ -148,14 +148,15 @@ def run(repo: Repo, rep: Report) -> None:
     # ------------------------------------------------------------- (b) clobber
     rep.rule(
         "C11.b-no-pattern-clobber",
-        "a for-loop whose target rebinds a name read by its own iterable must not be re-executed by an "
+        "a for-loop whose target rebinds a name that its own iterable reads from the scope of the loop (a free variable of the iterable: the parameters "
+        "of a lambda and the targets of a comprehension inside it are variables of their own) must not be re-executed by an "
         "enclosing loop without the name being re-established (package-wide)",
         floor=3,
     )
     nloops = 0
     for name, mod in repo.modules.items():
         for q, fn in mod.functions():
-            nloops += loops.clobber_scan(rep, "C11.b-no-pattern-clobber", mod, fn, q)
+            nloops += _h.clobber_scan(rep, "C11.b-no-pattern-clobber", mod, fn, q)
     # embedded positive example: the rule must fire on the known-bad shape
     bad = ast.parse(
         "def triples(self, triple):\n s, p, o = triple\n for graph in self.graphs:\n  for s, o in p.eval(self, s, o):\n   yield s, p, o\n"
@@ -168,7 +169,7 @@ def run(repo: Repo, rep: Report) -> None:
 
     probe = Report("C11", rep.tier, repo)
     probe.rule("x", "x", 0)
-    loops.clobber_scan(probe, "x", _M(), bad.body[0], "triples")  # type: ignore[arg-type]
+    _h.clobber_scan(probe, "x", _M(), bad.body[0], "triples")  # type: ignore[arg-type]
     if not probe.findings:
         raise AnalysisError("clobber rule failed to fire on its embedded positive example")
 
@@ -570,8 +571,9 @@ def run_extra(repo: Repo, rep: Report) -> None:
     rep.rule(
         "C11.f-composition-unfiltered",
         "the code that composes sub-path results (the evaluators of SequencePath, AlternativePath and InvPath: eval and the private callables it "
-        "reaches) passes every pair on: a loop over a sub-path evaluation or over the results of a helper contains no if/continue/break between "
-        "the evaluation and the yield; `yield from <evaluation>` passes everything on by construction",
+        "reaches) passes every pair on: a loop over a sub-path evaluation or over the results of a helper - written in the loop header, held in a "
+        "local that an assignment gives such results, or received through a parameter that a call of the evaluator hands them - contains no "
+        "if/continue/break between the evaluation and the yield; `yield from <evaluation>` passes everything on by construction",
         floor=6,
     )
     for cname in ("SequencePath", "AlternativePath", "InvPath"):
@@ -580,11 +582,27 @@ def run_extra(repo: Repo, rep: Report) -> None:
         def _composes(e: ast.AST, _ev=cev) -> bool:
             return any(isinstance(c, ast.Call) and (norm(c.func) == "eval_path" or _ev.callee(c) is not None) for c in ast.walk(e))
 
+        def _carries(hlp_, e: ast.AST, seen: frozenset = frozenset(), _ev=cev) -> bool:
+            """e can evaluate to the pairs of a sub-path evaluation / of a helper: it contains one, or it is a local name some assignment of
+            which gives it one, or a parameter that some call of the evaluator hands one (value flow, not spelling)"""
+            if _composes(e):
+                return True
+            if not isinstance(e, ast.Name) or (id(hlp_.fn), e.id) in seen:
+                return False
+            seen = seen | {(id(hlp_.fn), e.id)}
+            if e.id in hlp_.params:
+                if any(isinstance(t, ast.Name) and t.id == e.id and isinstance(t.ctx, ast.Store) for t in own_nodes(hlp_.fn)):
+                    return False
+                i = hlp_.params.index(e.id)
+                return any(k is hlp_ and k.arg(c, i) is not None and _carries(g_, k.arg(c, i), seen) for g_ in _ev.all() for c, k in _ev.calls(g_))
+            return any(isinstance(a, ast.Assign) and any(isinstance(t, ast.Name) and t.id == e.id for t in a.targets) and _carries(hlp_, a.value, seen)
+                       for a in own_nodes(hlp_.fn))
+
         n_here = 0
         for hlp in cev.all():
             q, f = hlp.label, hlp.fn
             for loop in [n for n in own_nodes(f) if isinstance(n, ast.For)]:
-                if not _composes(loop.iter):
+                if not _carries(hlp, loop.iter):
                     continue
                 filt = [s for s in loop.body if not isinstance(s, (ast.For, ast.Expr))]
                 filt += [s for s in loop.body if isinstance(s, ast.Expr) and not isinstance(s.value, (ast.Yield, ast.YieldFrom, ast.Constant))]
@@ -593,7 +611,7 @@ def run_extra(repo: Repo, rep: Report) -> None:
                        "every pair of the sub-path is passed on" if not filt else
                        "composition loop filters its pairs (%s): the composed relation loses members" % norm(filt[0])[:80], node=loop)
             for y in own_nodes(f):
-                if isinstance(y, ast.YieldFrom) and _composes(y.value):
+                if isinstance(y, ast.YieldFrom) and _carries(hlp, y.value):
                     n_here += 1
                     rep.ob("C11.f-composition-unfiltered", paths, q, y, True, "every pair of the evaluation is handed on as it comes", node=y)
         if not n_here:
@@ -805,11 +823,61 @@ def _walk_anchor(h):
         if pat is None:
             continue
         a, _, b = pat
-        if _is_none(b) and isinstance(a, ast.Name) and a.id in params:
+        if _may_be_open(b) and isinstance(a, ast.Name) and a.id in params:
             found.add((params.index(a.id), 0))
-        if _is_none(a) and isinstance(b, ast.Name) and b.id in params:
+        if _may_be_open(a) and isinstance(b, ast.Name) and b.id in params:
             found.add((params.index(b.id), 2))
     return next(iter(found)) if len(found) == 1 else None
+
+
+def _may_be_open(e: ast.AST) -> bool:
+    """the end of a step pattern is left open on some evaluation: the constant None, or a conditional expression one arm of which is"""
+    if isinstance(e, ast.IfExp):
+        return _may_be_open(e.body) or _may_be_open(e.orelse)
+    return _is_none(e)
+
+
+def _relay(mod, h):
+    """A helper WITHOUT a start of its own that extends a walk it is handed: it loops over a stream of (start, end) pairs it receives as a
+    parameter (never rebound) and evaluates one more step from a node of each pair.  -> (index of the stream parameter, side of the step pattern
+    the node of the pair sits on: 0 the step goes on from it / 2 the step leads to it), None if the helper has no such step or its steps disagree"""
+    rebound = {t.id for n in own_nodes(h.fn) for t in ast.walk(n) if isinstance(t, ast.Name) and isinstance(t.ctx, ast.Store)}
+    found = set()
+    for c in own_nodes(h.fn):
+        pat = _step_pattern(c)
+        if pat is None:
+            continue
+        for nm, (loop, _pos) in _reached(mod, c, h.fn).items():
+            if not (isinstance(loop.iter, ast.Name) and loop.iter.id in h.params and loop.iter.id not in rebound):
+                continue
+            for side in (0, 2):
+                if isinstance(pat[side], ast.Name) and pat[side].id == nm:
+                    found.add((h.params.index(loop.iter.id), side))
+    return next(iter(found)) if len(found) == 1 else None
+
+
+def _stream_sources(h, e: ast.AST, seen: frozenset = frozenset()):
+    """the expressions a stream handed on by helper h can have been produced by: e itself, or - for a local name - the right-hand sides of
+    ALL its assignments in h (flow-insensitive); None if some producer cannot be read (a parameter, a non-trivial target)"""
+    if not isinstance(e, ast.Name):
+        return [e]
+    if e.id in seen or e.id in h.params:
+        return None if e.id in h.params else []
+    out = []
+    stored = False
+    for n in own_nodes(h.fn):
+        if isinstance(n, ast.Assign) and any(isinstance(t, ast.Name) and t.id == e.id for t in n.targets):
+            stored = True
+            sub = _stream_sources(h, n.value, seen | {e.id})
+            if sub is None:
+                return None
+            out += sub
+        elif isinstance(n, ast.Name) and n.id == e.id and isinstance(n.ctx, ast.Store):
+            p = None
+            # a store that is not the plain target of an assignment (loop target, with-as, augmented, unpacking): unreadable
+            if not any(isinstance(a, ast.Assign) and any(t is n for t in a.targets) for a in own_nodes(h.fn)):
+                return None
+    return out if stored else None
 
 
 def _reached(mod, node: ast.AST, h: ast.AST) -> dict:
@@ -1004,7 +1072,12 @@ def run(repo: Repo, rep: Report) -> None:  # noqa: F811
         "in the evaluators of the Path classes (the public eval and the private callables it reaches - nested closures, private methods called through "
         "self, private module functions), a helper whose own step starts from one of its end parameters (eval_path(graph, (P, step, None)) "
         "or (None, step, P)) receives on that parameter the node just reached by the caller's loop - the far end of the caller's step - or an end "
-        "the enclosing `is not None` tests prove bound; a step pushed for a reached node keeps the helper's direction.  Otherwise the callee's first "
+        "the enclosing `is not None` tests prove bound; a step pushed for a reached node keeps the helper's direction.  The other end of the helper's own "
+        "step counts as open when it CAN be None (None, or a conditional expression with a None arm).  The iterative form is judged alike: a helper "
+        "without a start of its own that loops over a stream of pairs it receives as a parameter and evaluates one more step per pair (a relay) must "
+        "join the step on the FAR end of each pair (second member when the step goes on from it, first when the step leads to it); a directional helper "
+        "may hand to a relay only its own walk (a step from its own end, or that walk already extended by a relay of the same direction), and the relay "
+        "must extend at the end the helper walks towards.  Otherwise the callee's first "
         "step runs with BOTH ends unbound and a zero-length match on a term that is not in the graph is lost: "
         "Graph().subjects(p*/q*/r*, X) must yield X",
         floor=4,
@@ -1040,6 +1113,8 @@ def run(repo: Repo, rep: Report) -> None:  # noqa: F811
         # silent pass
         unjudged: list[str] = []
         anchors[id(ev)] = None
+        # helpers without a start of their own that extend, by one step, a stream of pairs they are handed (the iterative form of a continued walk)
+        relays = {id(h.fn): _relay(paths, h) for h in pev.helpers if anchors[id(h.fn)] is None}
         for h in pev.all():
             hn = h.name
             for n in own_nodes(h.fn):
@@ -1047,11 +1122,60 @@ def run(repo: Repo, rep: Report) -> None:  # noqa: F811
                     continue
                 k = pev.callee(n)
                 reached = _reached(paths, n, h.fn)
+                if k is not None and anchors[id(k.fn)] is None and relays.get(id(k.fn)) is not None:
+                    # (1b) the walk is continued by handing the pairs found so far to a relay: the relay must extend them at the end the
+                    # walk of the caller advances on, and what it is handed must be the caller's own walk (its step from its own end, or
+                    # that walk already extended in the same direction)
+                    sidx, kside = relays[id(k.fn)]
+                    mine = anchors[id(h.fn)]
+                    if mine is None:
+                        unjudged.append("%s: %s hands a walk to %s, which extends it by one step, but %s has no direction of its own" % (h.label, norm(n), k.name, hn))
+                        continue
+                    srcs = _stream_sources(h, k.arg(n, sidx)) if k.arg(n, sidx) is not None else None
+                    if not srcs:
+                        unjudged.append("%s: cannot tell which pairs %s hands to %s" % (h.label, norm(n), k.name))
+                        continue
+                    ok, why = kside == mine[1], "%s extends the pairs at their %s, the direction %s walks in" % (k.name, "end" if kside == 0 else "start", hn)
+                    if not ok:
+                        why = "%s walks %s, but hands its pairs to %s, which extends them at their %s: the walk turns round" % (
+                            hn, "forwards" if mine[1] == 0 else "backwards", k.name, "end" if kside == 0 else "start")
+                    for src in srcs:
+                        sp = _step_pattern(src)
+                        k2 = pev.callee(src)
+                        if sp is not None:
+                            if not (isinstance(sp[mine[1]], ast.Name) and sp[mine[1]].id == h.params[mine[0]]):
+                                ok, why = False, "the pairs handed to %s come from %s, which does not start from %s, the end %s walks from" % (k.name, norm(src), h.params[mine[0]], hn)
+                        elif k2 is not None and relays.get(id(k2.fn)) is not None:
+                            if relays[id(k2.fn)][1] != mine[1]:
+                                ok, why = False, "the pairs handed to %s were extended by %s in the other direction" % (k.name, k2.name)
+                        else:
+                            unjudged.append("%s: the pairs handed to %s may come from %s, which is neither a step nor an extended walk" % (h.label, k.name, norm(src)))
+                    n_cont += 1
+                    rep.ob(rid, paths, h.label, n, ok, why, node=n)
+                    continue
                 if not reached:
                     if h is not pev.entry and k is not None and anchors[id(k.fn)] is not None:
                         unjudged.append("%s: %s starts a directional helper outside any loop over results" % (h.label, norm(n)))
                     continue
                 pat_ = _step_pattern(n)
+                if pat_ is not None and anchors[id(h.fn)] is None and relays.get(id(h.fn)) is not None:
+                    # (2b) the step a relay evaluates for each pair of the walk it is handed: relational composition joins the pairs and the
+                    # step on the FAR end of the pair - (s, mid) then (mid, o) forwards, (mid, o) preceded by (s, mid) backwards
+                    sidx, side = relays[id(h.fn)]
+                    nm = pat_[side].id if isinstance(pat_[side], ast.Name) else None
+                    other = pat_[2 - side]
+                    loop, pos = reached.get(nm, (None, None))
+                    if loop is None or not (isinstance(loop.iter, ast.Name) and loop.iter.id == h.params[sidx]) or (isinstance(other, ast.Name) and other.id in reached):
+                        unjudged.append("%s: cannot tell how the step %s continues the walk %s is handed" % (h.label, norm(n), hn))
+                        continue
+                    far = 1 if side == 0 else 0
+                    ok = pos == far
+                    n_cont += 1
+                    rep.ob(rid, paths, h.label, n, ok,
+                           "the step goes on from the far end of each pair handed in (%s)" % nm if ok else
+                           "%s extends the pairs it is handed at their %s, but the step is evaluated for %s, which is not the %s of the pair: the composition joins on the wrong node" % (
+                               hn, "end" if side == 0 else "start", nm, "end" if side == 0 else "start"), node=n)
+                    continue
                 if pat_ is not None and anchors[id(h.fn)] is None and any(isinstance(x, ast.Name) and x.id in reached for x in (pat_[0], pat_[2])):
                     unjudged.append("%s: the step %s continues a walk from a reached node, but %s has no direction of its own (no step from one of its end parameters)" % (h.label, norm(n), hn))
                 if k is not None and anchors[id(k.fn)] is not None:
